@@ -32,7 +32,7 @@ def workdir(pid):
 def build_harness(release=False):
     os.makedirs(WORK, exist_ok=True)
     if os.environ.get('VERIF_DEV_BIN'):
-        return os.environ['VERIF_DEV_BIN']
+        return (release and os.environ.get('VERIF_DEV_BIN_RELEASE')) or os.environ['VERIF_DEV_BIN']
     lock = open(os.path.join(WORK, '.build.lock'), 'w')
     fcntl.flock(lock, fcntl.LOCK_EX)
     try:
